@@ -47,7 +47,8 @@ def canaries(runs):
                     break
         if "nohs" in want:
             for i, e in enumerate(ev):
-                if e["e"] == "deliver" and e["m"] == "HSR" and e["gen"] and e["live"] and any(ev[b]["t"] == "DATA" and ev[b]["c"] == e["c"] for b in tx if b > i):
+                if e["e"] == "deliver" and e["m"] == "HSR" and e["gen"] and e["live"] and any(ev[b]["t"] == "DATA" and ev[b]["c"] == e["c"] for b in tx if b > i) \
+                        and sum(1 for x in ev if x["e"] == "deliver" and x["m"] == "HSR" and x["c"] == e["c"]) == 1:     # the only handshake reply on that connection
                     c = copy.deepcopy(ev)
                     c[i]["obs"]["proof"] = False          # the reply the client accepted was in fact not genuine
                     out.append(("nohs", c))
